@@ -26,6 +26,9 @@ EXPLANATION += (
     ' C15.1 also covers every `self.M[K] = V` outside construction, whatever guards it: V may depend on no argument of the storing function that is not part of K, and may not be chosen by whether another lazily filled attribute has been loaded yet (`self.X is None`).'
 )
 EXPLANATION += (
+    ' ADDED (round 4): C15.7 also requires that a lazily filled memo is bound only in the constructor of its own class to a fresh empty container: assigning it from, or to, another object (the emulator sharing its dictionary with its header accessor) makes two readers serve each other cached values. C15.8 - the preload length is positive for every accepted file (zero DATA_BLOCKS field of legacy files replaced by the derived size before the loader is built).'
+)
+EXPLANATION += (
     ' ADDED (session 4): C15.7 - a lazily filled memo (an attribute initialised to an empty dict in the constructor and '
     'filled by subscript stores elsewhere, e.g. variant_headers) may be consulted per key only (k in memo, memo[k], '
     'memo.get(k)); its size, truth value, key set or iteration order is the history of earlier calls and must not reach a '
